@@ -58,9 +58,23 @@ def mutants_table():
     return head + "\n".join(rows)
 
 
+def recheck_text(d):
+    r = d.get("recheck")
+    if not r:
+        return ""
+    if not r.get("applies"):
+        return f"patch no longer applies at {r['repo_head']}"
+    bits = []
+    bits.append("demo still fails" if r.get("still_breaks_demo")
+                else "demo no longer fails")
+    bits.append("detected" if r.get("detected") else "**not detected**")
+    return f"{', '.join(bits)} ({r['repo_head']})"
+
+
 def seeded_table():
     rows = ["| id | property | needs to manifest | repo tests with change | "
-            "detected by | signatures | wall s |", "|---|---|---|---|---|---|---|"]
+            "detected by | signatures | wall s | re-run on the repaired tree |",
+            "|---|---|---|---|---|---|---|---|"]
     metas = sorted(glob.glob(os.path.join(HERE, "seeded", "*", "meta.json")))
     n = det = 0
     for m in metas:
@@ -77,7 +91,7 @@ def seeded_table():
             f"{esc(d['confirmation']['tests_with_change'])} | "
             f"{', '.join(c['property'] + ' ' + c['tier'] for c in by) or '**missed**'}"
             f"{' (' + esc(hist) + ')' if hist else ''} | `{esc(sig)}` | "
-            f"{by[0]['wall_s'] if by else ''} |")
+            f"{by[0]['wall_s'] if by else ''} | {recheck_text(d)} |")
     head = (f"{n} confirmed changes written by independent sub-agents "
             f"(each saw only the property text and a scratch worktree); "
             f"{det} detected.\n\n")
